@@ -170,11 +170,14 @@ def field_fault(rng, cont, stored, content):
         if not heads:
             return None
         h = rng.choice(heads)
-        (fname, fo, fl, kind) = rng.choice(TAR_FIELDS + (("size", 124, 12, "n"), ("mtime", 136, 12, "n"), ("size", 124, 12, "n")))
+        (fname, fo, fl, kind) = rng.choice(TAR_FIELDS + (("size", 124, 12, "n"), ("mtime", 136, 12, "n"), ("size", 124, 12, "n"),
+                                                     ("size", 124, 12, "n"), ("size", 124, 12, "n")))
         if kind == "n":
             val = rng.choice((b"\x80" + b"\xff" * (fl - 1), b"\xff" * fl, b"\x80" + b"\x00" * (fl - 9) + (2 ** 63).to_bytes(8, "big") if fl >= 9 else b"\xff" * fl,
                               b"\x80" + b"\x00" * (fl - 9) + (2 ** 63 - 1).to_bytes(8, "big") if fl >= 9 else b"\x80" * fl,
                               b"\x80" + b"\x00" * (fl - 9) + (8 * 10 ** 12 + rng.randrange(10 ** 12)).to_bytes(8, "big") if fl >= 9 else b"7" * fl,
+                              b"\x80" + b"\x00" * (fl - 9) + (2 ** 62 + rng.randrange(2 ** 40)).to_bytes(8, "big") if fl >= 9 else b"7" * fl,
+                              b"\x80" + b"\x00" * (fl - 9) + (2 ** rng.choice((44, 50, 56, 60))).to_bytes(8, "big") if fl >= 9 else b"7" * fl,
                               b"7" * (fl - 1) + b"\x00", b"9" * (fl - 1) + b"\x00", b" " * fl, b"\x00" * fl, b"-" + b"1" * (fl - 2) + b"\x00",
                               (b"%0*o" % (fl - 1, R + 1)) + b"\x00", (b"%0*o" % (fl - 1, max(0, R - 1))) + b"\x00", (b"%0*o" % (fl - 1, 2 * R + 512)) + b"\x00"))
         elif kind == "t":
@@ -549,6 +552,8 @@ def field_case(rng):
         name, content, kind, cont, stored = valid_base(rng)
         if cont == "plain":
             continue
+        if cont != "tar" and rng.random() < 0.4:
+            continue      # (archives twice as often: their headers hold the most fields that size something)
         if cont != "tar" and (cont == "bz2" or rng.random() < 0.35):
             # bytes after a valid stream: second member, the file twice, padding, a stray length
             data, fdesc = structured_tail(rng, stored, content, cont)
